@@ -59,6 +59,14 @@ CHECKS = {
              "values of both user types), object set with attribute digests, held sessions and the number of uninitialised slots are compared with the "
              "model, so cross-token interference, lost or surviving state after re-initialisation and slot changes across restarts are all visible.",
         note="File store; softhsm2-util actions and the SQLite store are not in this tier yet; two PIN values per user."),
+    "C07": dict(
+        category="exploration", design_ref="DESIGN.md 3/C07 + Appendix E",
+        technique="exhaustive enumeration of the full decision matrix (operation x key class/type x usage-flag variant x every CKM_* constant x allowed-list variant x slots.mechanisms configuration) on the real library with an only-if oracle from a reference table",
+        text="~264 000 cells per configuration are executed on the real library (every CKM_* constant of PKCS#11 v2.40 + unknown values, 15 key kinds, "
+             "one-hot flag variants, three allowed-list variants; digest-init / generate-key / generate-key-pair for the configuration clause). CKR_OK is "
+             "judged against flag, key class/type table, allowed list and the advertised list of that configuration.",
+        note="Exhaustive over the stated grid (no sampling); the always-authenticate clause is not covered by this check yet; cells that fail for an unrelated "
+             "reason (e.g. single DES needs OpenSSL's legacy provider on this image) are not judged."),
 }
 
 NOT_YET = "check under construction in this session; not claimed yet (DESIGN.md Appendix D gives the build order)"
@@ -87,7 +95,7 @@ def main():
         "setup_cmd": "python3 tools/build_sut.py ossl-asan ossl-plain",
         "hooks": {"guard": "SOFTHSM_VERIF", "enable": "tools/build_sut.py passes -DSOFTHSM_VERIF to every variant it compiles from /repo's working tree",
                   "baseline_off_cmd": "cmake --build /repo/_build && ctest --test-dir /repo/_build -j8 --timeout 900",
-                  "source_commits": [], "fix_commits": ["6bd3dce", "e87af21", "bea9994"], "add_only": True},
+                  "source_commits": [], "fix_commits": ["6bd3dce", "e87af21", "bea9994", "588c9b7", "ceb5015", "084c459"], "add_only": True},
         "engines": [
             {"name": "p11sh", "path": "engine/p11sh", "serves_properties": sorted(CHECKS), "kind_free_text": "PKCS#11 shell linked statically against the SUT; SNAP/BACK process snapshots; guard pages + canaries around every buffer"},
             {"name": "p11mc", "path": "py/p11mc", "serves_properties": sorted(CHECKS), "kind_free_text": "explicit-state explorer (level-synchronous BFS with replay-to-state, unmerged DFS), reference models, evidence/findings glue"},
